@@ -294,6 +294,8 @@ impl MemoryMappedWhirlpool {
         forall|k: int| 0 <= k < 3 ==> #[trigger] final(self).reward_info_v(k) == (WhirlpoolRewardInfo { growth_global_x64: reward_growth_global[k], ..old(self).reward_info_v(k) }),
         final(self).tick_spacing_v() == old(self).tick_spacing_v(), final(self).sqrt_price_v() == old(self).sqrt_price_v(), final(self).tick_current_index_v() == old(self).tick_current_index_v(),
         final(self).fee_growth_global_a_v() == old(self).fee_growth_global_a_v(), final(self).fee_growth_global_b_v() == old(self).fee_growth_global_b_v(),
+        final(self).token_vault_a_v() == old(self).token_vault_a_v(), final(self).token_vault_b_v() == old(self).token_vault_b_v(),
+        final(self).token_mint_a_v() == old(self).token_mint_a_v(), final(self).token_mint_b_v() == old(self).token_mint_b_v(),
 //@ end
 }
 }
